@@ -11,49 +11,6 @@ Local Open Scope list_scope.
 Section Eval.
   Variables validI validT : string -> bool.
 
-  Fixpoint join (sep : string) (l : list string) : string :=
-    match l with [] => "" | [x] => x | x :: r => x ++ sep ++ join sep r end.
-
-  Definition tok_text (t : token) : string :=
-    match t with
-    | TWord s _ => s | TQIdent s => """" ++ s ++ """" | TUIdent s => "U&""" ++ s ++ """"
-    | TStr s => "'" ++ s ++ "'" | TNum s => s | TParam _ => "$" | TOp s | TRun s _ => s
-    | TSelf c | TBad c => String c "" | TCast => "::" | TDotDot => ".." | TColonEq => ":="
-    end.
-
-  Fixpoint show (p : rexpr) : string :=
-    match p with
-    | PAtom ts => join " " (map tok_text ts)
-    | PCall n a => n ++ "(" ++ join ", " ((fix go (l : list rexpr) := match l with [] => [] | x :: r => show x :: go r end) a) ++ ")"
-    | PList a => "ROW(" ++ join ", " ((fix go (l : list rexpr) := match l with [] => [] | x :: r => show x :: go r end) a) ++ ")"
-    | PBin op l r => "(" ++ show l ++ " " ++ op ++ " " ++ show r ++ ")"
-    | PPre op e => "(" ++ op ++ " " ++ show e ++ ")"
-    | PPost op e => "(" ++ show e ++ " " ++ op ++ ")"
-    | PCast e ty => "(" ++ show e ++ "::" ++ join " " (map tok_text ty) ++ ")"
-    | PEsc e c => "(" ++ show e ++ " ESCAPE " ++ join " " (map tok_text c) ++ ")"
-    end.
-
-  (* re-association tolerance: chains of one and the same operator out of + * AND OR become n-ary *)
-  Definition tolerated (op : string) : bool := str_in op ["+"; "*"; "AND"; "OR"].
-  Definition items (op : string) (p : rexpr) : list rexpr :=
-    match p with
-    | PCall n a => if String.eqb n ("#" ++ op) then a else [p]
-    | _ => [p]
-    end.
-  Fixpoint norm (p : rexpr) : rexpr :=
-    match p with
-    | PAtom ts => PAtom ts
-    | PCall n a => PCall n ((fix go (l : list rexpr) := match l with [] => [] | x :: r => norm x :: go r end) a)
-    | PList a => PList ((fix go (l : list rexpr) := match l with [] => [] | x :: r => norm x :: go r end) a)
-    | PBin op l r =>
-        if tolerated op then PCall ("#" ++ op) (items op (norm l) ++ items op (norm r))
-        else PBin op (norm l) (norm r)
-    | PPre op e => PPre op (norm e)
-    | PPost op e => PPost op (norm e)
-    | PCast e ty => PCast (norm e) ty
-    | PEsc e c => PEsc (norm e) c
-    end.
-
   (* the text the model writes for a value, without validation or pretty printing; positional
      placeholders as written *)
   Definition text_of (e : exp nat) : option string :=
